@@ -138,4 +138,13 @@ theorem serverExtWalk_safe (b : Buf) :
   · omega
   · omega
 
+theorem seqRun_safe (k s : Nat) (b : Buf) (n : Nat) (hs : s ≤ 65535) :
+    safe (· ≤ n) (seqRun k s) (fun r _ n' => r ≤ 65535 ∧ n' = n) b n := by
+  induction k generalizing s with
+  | zero => unfold seqRun; exact safe_pure ⟨hs, rfl⟩
+  | succ k ih =>
+    unfold seqRun seqAdvance
+    cur_auto
+    exact ih _ (by omega)
+
 end RtcModel.C07.Dtls
